@@ -437,3 +437,82 @@ def law_exact(bi, rng):
 
 
 LAWS['exact'] = law_exact
+
+
+# ---- operands a hair beside a multiple of the quantum (round 10) -------------------
+# Class: operands whose quotient x / quant lies within 1 ulp ... 2**-28 (relative)
+# of an integer - or of an integer + 1/2 for round - WITHOUT being it.  Random
+# float arguments never get there, and the tolerance laws above (which must
+# allow a few ulp because decimal quanta are inexact) accept a result on the
+# wrong side as long as it is within the tolerance of the operand; a kernel
+# that "repairs" quotients like 0.3 / 0.1 by snapping to the nearest integer
+# returns a multiple ABOVE the operand for trunc / BELOW it for roundup.
+# Here everything is exact: quant = m * 2**e (dyadic, m <= 7),
+# x = (k +- 2**-j) * quant (or (k + 1/2 +- 2**-j) * quant) with k and j small
+# enough that x, the true quotient and (for round) quotient + 1/2 are exactly
+# representable doubles, so IEEE division returns the true quotient and every
+# intermediate of the documented formulas floor(x/q)*q, ceil(x/q)*q,
+# floor(x/q + .5)*q is exact.  Reference: the same formulas in
+# fractions.Fraction.  Judged: the result is THE multiple of the quantum that
+# is <= x and nearest (trunc; toward zero also accepted for negative x, as in
+# law_round), >= x and nearest (roundup), nearest to x (round).
+
+NEAR_QUANTS_POW2 = [1.0, 0.5, 0.25, 0.125, 0.0625, 2.0, 4.0, 8.0, 1, 2, 4, 2 ** -10]
+NEAR_QUANTS_DYADIC = [1.5, 3.0, 3, 0.75, 2.5, 5, 12, 1.25, 7.0, 0.375]
+
+
+def _near_case(rng):
+    """(op, x, q, class) or None when the draw is not exactly representable."""
+    op = rng.choice(['trunc', 'roundup', 'round'])
+    pow2 = rng.random() < 0.6
+    q = rng.choice(NEAR_QUANTS_POW2 if pow2 else NEAR_QUANTS_DYADIC)
+    b = rng.choice([0, 1, 2, 3, 3, 4, 5, 6, 8, 10, 14, 20])     # bits of k
+    k = rng.randint(0, 2 ** b - 1) if b else 0
+    if rng.random() < 0.5:
+        k = -k
+    Q = _F(q)
+    at_tie = op == 'round' and rng.random() < 0.5
+    base = (_F(k) + _F(1, 2)) if at_tie else _F(k)
+    side = rng.choice([-1, 1])
+    where = 'tie' if at_tie else 'multiple'
+    if pow2 and not at_tie and k != 0 and rng.random() < 0.25:
+        # one ulp beside the multiple (power-of-two quantum: x / q is a scaling)
+        m = float(base * Q)
+        x = _math.nextafter(m, _math.inf * side)
+        cls = f'one-ulp-{"below" if side < 0 else "above"}-{where}'
+    else:
+        kb = max(abs(k), 1).bit_length()
+        hi = (48 if not pow2 or at_tie else 52) - kb
+        j = rng.randint(max(2, 28 - kb), hi)
+        X = (base + side * _F(1, 2 ** j)) * Q
+        x = float(X)
+        if _F(x) != X:
+            return None
+        cls = f'hair-{"below" if side < 0 else "above"}-{where}'
+    return op, x, q, cls
+
+
+def law_near(bi, rng):
+    for _ in range(20):
+        c = _near_case(rng)
+        if c is not None:
+            break
+    op, x, q, cls = c
+    how, r = _lifted(rng, op, x, (q,))
+    args = {'op': op, 'x': x, 'quant': q, 'result': r, 'via': how, 'class': cls,
+            'x_hex': float(x).hex()}
+    X, Q, R = _F(x), _F(q), _F(r)
+    refs = _exact_round(op, x, q)
+    if any(R == ref for ref in refs):
+        return args, None
+    args['exact_reference'] = float(refs[0])
+    if (R / Q).denominator != 1:
+        return args, (f'{op}-not-a-multiple', cls)
+    if op == 'trunc' and R > X:      # (not the accepted toward-zero multiple)
+        return args, ('trunc-result-above-operand', cls)
+    if op == 'roundup' and R < X:
+        return args, ('roundup-result-below-operand', cls)
+    return args, (f'{op}-not-the-nearest-multiple', cls)
+
+
+LAWS['near'] = law_near
